@@ -31,6 +31,10 @@ CLAIMED = {
          "Structural necessary conditions: on every success path of each of the seven live handshake readers the received bytes [0,n) are tiled exactly by ranges that enter the transcript before the last MAC comparison, n being the length reported; every accepting caller found that length equal to the datagram length; deriveFinalKeys is ratchet / distinct constant label / squeeze per direction, called with the same argument order at both ends, with mirrored read/write assignment; X25519 ephemerals are generated on every state-creating path and their key bytes written nowhere else, KEM operations draw from crypto/rand.Reader, session ids from crypto/rand.",
          "Trusts go/ssa; offsets are compared as linear forms (non-linear length arithmetic would be reported undecided). Equality of the derived key bytes, their unpredictability, and writer-side provenance / writer-reader sequence agreement (DESIGN R3, R4: any asymmetry there fails every handshake and is what the existing tests do catch) are not decided.",
          "DESIGN.md §3 C02"),
+ "C13": ("per-path counting of up/down calls in absorbAny, crypt and squeezeAny; def-use of the domain-byte operands that reach down/up from the six public operations (constants, first-block/continuation phis); sibling comparison of the two arms of crypt (order of up, keystream addition, down; provenance of the block handed to down)",
+         "Structural necessary conditions of conformance and of 'two peers stay in sync': every operation advances the duplex even for an empty operand (no early return before the first up/down); the domain bytes of Absorb, absorbKey, crypt, Squeeze, SqueezeKey and Ratchet are non-zero and pairwise distinct and only the first block of an operand carries one; the encrypting arm absorbs its input block and the decrypting arm the output block it just produced, both as up, keystream addition, down.",
+         "Equality of the output bytes with the Cyclist specification instantiated with Keccak-p[1600, 12 rounds] (permutation, lane packing, rates, padding positions, Hash-mode masking of the domain byte) is numerical and is not decided; no value of a domain byte is pinned, only their distinctness.",
+         "DESIGN.md §9.2 C13"),
  "C14": ("constant extraction from the SSA form of SlidingWindow.Check and SlidingWindow.Mark (window constant in the staleness comparison, shift, bit mask and index mask applied to the sequence number, length and element width of the block array; x % 2^k and x / 2^k normalised to mask and shift), arithmetic relations between them, sibling cross-check of the two functions",
          "Structural necessary conditions of 'never lets a duplicate through': 2^shift equals the block width, bit mask = 2^shift - 1, the block count is a power of two, index mask = count - 1, window <= (count - 1) * block width (a block recycled by Mark lies wholly below the window), and Check and Mark use identical constants (the bit Mark sets is the bit Check tests; what Mark ignores as stale is what Check rejects).",
          "Equivalence with a set-based filter over all counter histories is a functional statement and is not decided: the run-time arithmetic of Mark's clearing loop (which blocks are zeroed on a forward jump, the clamp to the ring size), wrap-around at 2^64, and 'never rejects a fresh in-window packet' beyond the geometry. An unrecognised shape yields UNDECIDED, not a pass.",
@@ -86,7 +90,6 @@ CLAIMED = {
 }
 
 NOT_APPLICABLE = {
- "C13": "Every clause equates output bytes with a reference construction over all operation sequences and lengths; no structural necessary condition exists that is not a frozen-fragment proxy. Needs execution against a reference or a proof (other technique families).",
 }
 
 # properties whose checks are not implemented yet in this revision (kept honest: not claimed)
